@@ -43,9 +43,10 @@
 (***************************************************************************)
 EXTENDS Integers, Sequences, TLC, Json
 
-W == INSTANCE Writer WITH MaxChunks <- 0, MaxSize <- 0, LatchError <- TRUE, CountAccepted <- TRUE,
+W == INSTANCE Writer WITH MaxChunks <- 0, UnitSizes <- {0}, UnitKinds <- {"fmt"}, IfaceSets <- {{}}, Route <- "fmt", MaxWrite <- 0,
+       PieceCount <- "piece", LatchBy <- "test", CachedViews <- FALSE, LatchError <- TRUE, CountAccepted <- TRUE,
        KeepFirstError <- FALSE, Modes <- {}, Pieces <- {}, GivenFile <- "", MaxCalls <- 1, LaterModes <- {}, FreshPerCall <- TRUE,
-       stage <- "cfg", w <- 0, chunks <- <<>>, fw <- 0, obs <- 0, delivered <- <<>>, sess <- 0
+       stage <- "cfg", w <- 0, chunks <- <<>>, kinds <- <<>>, fw <- 0, obs <- 0, delivered <- <<>>, sess <- 0
 
 Trace == ndJsonDeserialize("writer_rec.ndjson")
 N == Len(Trace)
